@@ -141,6 +141,9 @@ def augment(
             "state_list and action_list can only be set for TabularMarkovDecisionProcess"
     class AugmentedMDP(mdp.__class__):
         def __init__(self): pass
+    # discount_rate is usually an instance attribute of `mdp`, which the
+    # argument-less constructor above would otherwise reset to the class default
+    AugmentedMDP.discount_rate = mdp.discount_rate
     if initial_state_dist is not None:
         AugmentedMDP.initial_state_dist = staticmethod(initial_state_dist)
     else:
